@@ -3,10 +3,11 @@
 The calls are performed and observed by the pipeline-A adapter (harness/adapters/resources.py, probe=False: nothing
 the observer does loads a handle), over a bigger universe than the exhaustive instances: six maps, eight handles, five
 names of mixed lexical classes, composite keys up to three names, up to three ChainMap layers per map, handles whose
-load raises once, staging moves, snapshots taken again after changes.  The generator keeps a shadow of the tables in
-model ids, read from the real objects after each call — it serves the preconditions of the generated domain only
-(SetItem of Resources.tla: no cycles, one place per node unless moved out of a staging map, pool of implicit maps not
-exhausted); the verdict is TLC's.
+load raises once, handles whose truth value is False (every other trace), staging moves, resources stored again where
+they are, snapshots read while their map moves on and taken again after changes.  The generator keeps a shadow of the
+tables in model ids, read from the real objects after each call — it serves the preconditions of the generated domain
+only (SetItem of Resources.tla: no cycles, one place per node unless moved out of a staging map or stored again where
+it is, pool of implicit maps not exhausted); the verdict is TLC's.
 """
 import random
 
